@@ -30,6 +30,12 @@ def slice_of(t):
             a = P.const_int(r[2][0])
             if a is not None:
                 return (base, a, None)
+    # one byte of the text: s.as_bytes()[i]  (for ASCII text the same as the one-byte slice s[i..i + 1])
+    if s[0] in ("index", "cindex"):
+        bs = P.strip(s[1])
+        i = P.const_int(s[2]) if s[0] == "index" else s[2]
+        if bs[0] == "call" and bs[1] == "core::str::<impl str>::as_bytes" and len(bs[2]) == 1 and i is not None:
+            return (P.strip(bs[2][0]), i, i + 1)
     return None
 
 
@@ -118,6 +124,10 @@ class TokModel:
                 out.append(("slice-lit", op, (sx[1], sx[2]), P.strip(y)[1], (b, lab)))
             elif sy and sy[0] == ("param", 1) and P.strip(x)[0] == "str":
                 out.append(("slice-lit", op, (sy[1], sy[2]), P.strip(x)[1], (b, lab)))
+            elif sx and sx[0] == ("param", 1) and sx[2] == sx[1] + 1 and P.const_int(P.strip(y)) is not None and 0 <= P.const_int(P.strip(y)) < 128:
+                out.append(("slice-lit", op, (sx[1], sx[2]), chr(P.const_int(P.strip(y))), (b, lab)))      # bytes[i] == b'c'
+            elif sy and sy[0] == ("param", 1) and sy[2] == sy[1] + 1 and P.const_int(P.strip(x)) is not None and 0 <= P.const_int(P.strip(x)) < 128:
+                out.append(("slice-lit", op, (sy[1], sy[2]), chr(P.const_int(P.strip(x))), (b, lab)))
             elif rx is not None and ry is not None:
                 out.append(("ranks", op, rx, ry, (b, lab)))
             else:
